@@ -179,7 +179,13 @@ fn check_eq_consistency(a: &ArrayRef, va: &[Val], rp: &mut Rp, label: &str) -> u
                 Ok(got) => {
                     evals += 1;
                     if got != (va[i] == va[j]) {
-                        rp.fail("array_eq", if a_has_view && rp.kind != "listview" { "comparator-consistency+view" } else { "comparator-consistency" }, format!("{label}: slice({i},1) == slice({j},1) is {got} but the values are {} and {}", va[i].show(), va[j].show()));
+                        let msg = format!("{label}: slice({i},1) == slice({j},1) is {got} but the values are {} and {}", va[i].show(), va[j].show());
+                        if a_has_view {
+                            // one class for every container that reaches a byte-view child (byte_view_equal)
+                            rp.raw("c10:array_eq:comparator-consistency:view-child".to_string(), msg);
+                        } else {
+                            rp.fail("array_eq", "comparator-consistency", msg);
+                        }
                         return evals;
                     }
                 }
